@@ -19,6 +19,10 @@ CHECKS = {
   technique="Coq proof (round-trip, strictness, uniqueness and mixed-radix order theorems about a hand-written value-level model of every conversion) + differential correspondence through the real API incl. serde_json and bincode",
   text="54 theorems C20_* (props/C20.v), all inputs: bytes/hex/decimal-string/BigUint/Vec/serde round trips, accept-iff characterisations (strict parsers), cmp = numeric order of the base-p value, XFE<->Digest invertible exactly on digests with two trailing zeros. The model is hand-written and tied to the code by 52k (quick) / 696k (thorough) cases x 2 build profiles.",
   note="All of C20 is hand-modelled (nothing translated); u64::from_str, hex 0.4.3, serde_json and bincode 1.3 framing are modelled by their documented formats. Base-field value semantics rely on C01."),
+ "C19": dict(
+  technique="Coq proof (induction over limb lists for every limb count N; the TryFrom guards are regenerated from the Rust source by the translator and re-proved) + differential correspondence for N = 0..5 in two build profiles",
+  text="33 theorems C19_* (props/C19.v) for every limb count N: add/sub/mul/mul_two/sum return exactly the big-integer result and panic exactly when it is not representable; rem_div/div/rem exact, panic exactly on a zero divisor and never overflow internally; div_two, cmp, eq; try_from u64/u128 succeed exactly when the value fits (about the regenerated guards); BigUint, field-element-array and codec round trips; decode total, strict and unique. Hand-written limb model tied by 71k (quick) / 548k (thorough) cases x 2 profiles.",
+  note="Known finding (not repaired, printed as KNOWN-FINDING): U32s<0> conversions of 0 (key u32s0-tryfrom-zero). Everything except the two TryFrom guards is hand-modelled; index sums i+j+k assumed not to overflow usize (N < 2^58). One extra extraction directive: Z.pow -> zarith power."),
 }
 
 ORDER = ["C%02d" % i for i in range(1, 21)]
